@@ -1499,8 +1499,8 @@ def budgets(ctx):
     if ctx.quick:
         return ({"generic": 80, "clustered": 60, "collinear": 60, "coincident": 80, "edges": 80, "ranges": 50,
                  "outside": 20, "tie": 50}, [4, 5], 40)
-    return ({"generic": 500, "clustered": 400, "collinear": 400, "coincident": 500, "edges": 500, "ranges": 400,
-             "outside": 100, "tie": 300}, [3, 4, 5, 6, 6], 400)
+    return ({"generic": 400, "clustered": 300, "collinear": 300, "coincident": 400, "edges": 400, "ranges": 300,
+             "outside": 80, "tie": 250}, [3, 4, 5, 6], 300)
 
 
 def corpus_cases(ctx):
@@ -1531,13 +1531,13 @@ def run(ctx):
     cases = corpus_cases(ctx)
     ncorpus = len(cases)
     cases += gen_cases(rng, bud, sizes=(1, 2, 3, 4, 5, 7, 9, 12, 16, 24, 40) if ctx.quick else
-                       (1, 2, 3, 4, 5, 7, 9, 12, 16, 24, 40, 40, 64, 100))
+                       (1, 2, 3, 4, 5, 7, 9, 12, 16, 24, 40, 40, 64))
     cases += gen_perm_cases(rng, perm_sizes)
     cases += gen_tol_cases(rng, ntol)
     n = 0
     for i in range(0, len(cases), 600):
         n += run_batch(ctx, exe, mexe, cases[i:i + 600], stats)
-    gcases = gen_grad_cases(rng, 60 if ctx.quick else 600)
+    gcases = gen_grad_cases(rng, 60 if ctx.quick else 400)
     n += evaluate_grad(ctx, exe, gcases, stats)
     cases += gcases
     ctx.note("wall clock: cases %.0f s" % (ctx.elapsed() - t_ext))
